@@ -1,6 +1,5 @@
 import Indi.Properties.C18
 import Indi.Properties.C18b
-import Indi.Properties.Decisions
 #print axioms Indi.Rtr.C18_forgotten
 #print axioms Indi.Rtr.C18_no_delivery_after
 #print axioms Indi.Rtr.C18_others_stay
@@ -12,4 +11,3 @@ import Indi.Properties.Decisions
 #print axioms Indi.Conn.C18_ending_cleans
 #print axioms Indi.Conn.C18_ended_is_final
 #print axioms Indi.Conn.serving_stays
-#print axioms Indi.Decisions.routerDeliver_agrees
